@@ -558,6 +558,7 @@ pub fn stream_read<const MODE: u8, const EXACT: bool>() {
     let src_all = &loc.0[lo..lo + ll];
     let mut src: &[u8] = src_all;
     let mut n = 0usize;
+    let (mut ok_, mut errfit) = (false, false);
     if EXACT {
         let r = on_slice!(MODE, rec, root, &mut c.mem.0[wo..wo + wc], |s| s.read_exact_volatile_from(addr, &mut src, count));
         let fits = addr as u128 + count as u128 <= wc as u128;
@@ -567,8 +568,8 @@ pub fn stream_read<const MODE: u8, const EXACT: bool>() {
         if r.is_ok() {
             n = count;
         }
-        kani::cover!(r.is_ok() && count > 8);
-        kani::cover!(r.is_err() && fits);
+        ok_ = r.is_ok();
+        errfit = r.is_err() && fits;
         leak(r);
     } else {
         let r = on_slice!(MODE, rec, root, &mut c.mem.0[wo..wo + wc], |s| s.read_volatile_from(addr, &mut src, count));
@@ -581,10 +582,13 @@ pub fn stream_read<const MODE: u8, const EXACT: bool>() {
         if let Ok(k) = &r {
             n = *k;
         }
-        kani::cover!(r.is_ok() && n > 0 && n < count);
-        kani::cover!(r.is_ok() && n == count && count > 8);
+        ok_ = r.is_ok();
         leak(r);
     }
+    kani::cover!(!EXACT || (ok_ && count > 8));
+    kani::cover!(!EXACT || errfit);
+    kani::cover!(EXACT || (ok_ && n > 0 && n < count));
+    kani::cover!(EXACT || (ok_ && n == count && count > 8));
     if MODE == 0 {
         assert!(src.len() == ll - n); // consumed exactly what was stored
     }
